@@ -872,6 +872,18 @@ func (x *scanCtx) c06() {
 			x.viol("C06", "c06-wrong-count", "reap-phase-fault", site, fmt.Sprintf("u=%s%% bands=%v: expected %d taints although a removal call failed in this scan, saw %d", a.UMax.FloatString(6), bandList(a), exp, a.TaintOK), putsOf(a, "taint")...)
 		}
 	}
+	if !a.Clean && a.Kind == kNormal && !trigger && !addsCapacity && !x.rec.Outcome.EndsLifetime() && !preFaulted(x.rec) {
+		// failed taint writes: the band's count is still owed as long as untainted nodes remain to be tried
+		if exp, strict := x.expectedTaints(); strict && exp > 0 && a.TaintOK < exp {
+			for _, n := range a.Untainted {
+				if !a.TaintAttempted[n.Name] {
+					x.check("c06-count")
+					x.viol("C06", "c06-wrong-count", "stopped-early", site, fmt.Sprintf("u=%s%% bands=%v prescribe %d taints; %d succeeded, yet untainted node %s was never attempted", a.UMax.FloatString(6), bandList(a), exp, a.TaintOK, n.Name), putsOf(a, "taint")...)
+					break
+				}
+			}
+		}
+	}
 	if !a.Clean {
 		// counts become upper bounds
 		if exp, strict := x.expectedTaints(); strict && !trigger && a.TaintOK > exp && !hasAppliedButFailedPut(a) {
@@ -998,6 +1010,15 @@ func (x *scanCtx) c06Starve() {
 	}
 }
 
+func preFaulted(rec *ScanRecord) bool {
+	for _, c := range rec.Pre {
+		if c.Fault != "" || c.Err != "" {
+			return true
+		}
+	}
+	return false
+}
+
 func hasAppliedButFailedPut(a *Analysis) bool {
 	for _, at := range a.Attempts {
 		if at.Put != nil && at.Put.Err != "" && at.Put.Applied {
@@ -1056,6 +1077,9 @@ func (x *scanCtx) c07() {
 		for _, n := range a.Tainted {
 			if !a.UntaintAttempted[n.Name] {
 				x.viol("C07", "c07-bought-while-tainted", "", "", fmt.Sprintf("cloud increase issued while tainted node %s was never offered for untainting", n.Name), a.Increase...)
+				if annotated(n) {
+					x.viol("C10", "c10-counts", "not-untainted", "", fmt.Sprintf("annotated tainted node %s was passed over for untainting and capacity was bought instead: the annotation protects from removal only", n.Name), a.Increase...)
+				}
 				break
 			}
 		}
@@ -1152,7 +1176,7 @@ func (x *scanCtx) c09() {
 	for _, c := range gs.Calls {
 		var node string
 		switch c.Op {
-		case OpPut, OpDelete:
+		case OpPut, OpPatch, OpDelete:
 			node = c.Target
 		case OpTerminateASG:
 			node = a.ByInst[c.Target]
@@ -1394,7 +1418,7 @@ func (x *scanCtx) c12Targets() {
 	for _, c := range gs.Calls {
 		bad := ""
 		switch c.Op {
-		case OpGet, OpPut, OpDelete:
+		case OpGet, OpPut, OpPatch, OpDelete:
 			if _, ok := a.Node[c.Target]; !ok {
 				bad = "node not in this group's view"
 			}
@@ -1488,7 +1512,7 @@ func sameMultiset(a, b map[string]int) bool {
 func (x *scanCtx) c15() {
 	gs, g := x.gs, x.g
 	for _, c := range gs.Calls {
-		if c.Op != OpPut || c.NodeBody == nil {
+		if c.Op != OpPut && c.Op != OpPatch || c.NodeBody == nil {
 			continue
 		}
 		x.check("c15")
@@ -1500,6 +1524,16 @@ func (x *scanCtx) c15() {
 		// everything but spec.taints must be what the GET returned
 		p2, b2 := prev.DeepCopy(), body.DeepCopy()
 		p2.Spec.Taints, b2.Spec.Taints = nil, nil
+		if c.Op == OpPatch {
+			b2.ResourceVersion = p2.ResourceVersion // a patch carries no resourceVersion of its own
+			if c.Stored != nil && c.Stored.ResourceVersion != prev.ResourceVersion {
+				// patched over an object that changed since the GET: judge the result against what was stored
+				p2 = c.Stored.DeepCopy()
+				p2.Spec.Taints = nil
+				b2.ResourceVersion = p2.ResourceVersion
+				prev = c.Stored
+			}
+		}
 		p2.TypeMeta = b2.TypeMeta
 		if d := nodeDiff(p2, b2); d != "" {
 			x.viol("C15", "c15-collateral", "fields", "", fmt.Sprintf("PUT %s changes more than the escalator taint: %s", c.Target, d), c)
